@@ -185,9 +185,25 @@ func teWithdraw(ctx *messageContext, payload []byte) error {
 	newVal.Stake.Sub(newVal.Stake, delta)
 
 	ctx.State.UpdateValidator(newVal, old)
+	newVal = payOutResidueOfEmptyValidator(ctx, newVal)
 
 	addWithdrawLog(ctx, newVal, tx.Recipient, common.Address{}, newVal.SelfToken, newVal.SelfStake, withdrawToken, delta, changed, newVal.Status, 0)
 	return nil
+}
+
+// payOutResidueOfEmptyValidator hands the rest of the distributable rewards to the coinbase of a
+// validator that has no token left: such a record is removed from the state at the end of the block
+// (Validator.IsInvalid), and the rounding residue that settleValidatorRewards leaves in the record
+// of an online validator would be removed with it.
+func payOutResidueOfEmptyValidator(ctx *messageContext, val *state.Validator) *state.Validator {
+	if !val.IsInvalid() || val.RewardsDistributable.Sign() <= 0 {
+		return val
+	}
+	ctx.State.AddBalance(val.Coinbase, val.RewardsDistributable)
+	newVal := val.PartialCopy()
+	newVal.RewardsDistributable.SetUint64(0)
+	ctx.State.UpdateValidator(newVal, val)
+	return newVal
 }
 
 func teChangeStatus(ctx *messageContext, payload []byte) error {
@@ -321,6 +337,7 @@ func teDelegationSub(ctx *messageContext, payload []byte) error {
 		newVal.Status = params.ValidatorOffline // force to offline
 		db.UpdateValidator(newVal, val)
 	}
+	newVal = payOutResidueOfEmptyValidator(ctx, newVal)
 
 	addWithdrawLog(ctx, newVal, delegator, delegator, newDFrom.Token, newDFrom.Stake, withdrawToken, stakeDelta, changed, newVal.Status, uint8(status))
 	return nil
